@@ -574,3 +574,4 @@ def b_native(B):
 from pyvc.api import depends  # noqa: E402
 depends(PROPERTY, "C17", ["firstlast"])      # generator contract + nwin == count, used by the window-loop harnesses
 depends(PROPERTY, "C09", ["write_meta_data_lists"])      # metadata field for field: integer lists are written back in the form the parser reads as the same list
+depends(PROPERTY, "C04", ["prepare_files_NP24_forced"])      # every shank map: the files written are those of the shanks that have channels, with channel lists where(shank == s) + [sync] - the pre-condition of the window harnesses
